@@ -283,7 +283,23 @@ func checkC13(c *Ctx) {
 								if where == "comment" && strings.HasSuffix(acc, "Path") {
 									continue // file names / paths cannot contain a newline
 								}
-								snippet := strings.TrimSpace(holeFree(text))
+								// identity of the site: the constant text the line starts with
+								// (stable under changes of how the printed value is composed)
+								snippet := ""
+								for _, s0 := range l.Segs {
+									if s0.Hole != nil {
+										if snippet != "" {
+											break
+										}
+										snippet = "*"
+										continue
+									}
+									snippet += s0.Const
+									if strings.TrimSpace(s0.Const) != "" {
+										break
+									}
+								}
+								snippet = strings.TrimSpace(snippet)
 								if len(snippet) > 48 {
 									snippet = snippet[:48]
 								}
